@@ -44,19 +44,13 @@ def _has_quant(ob):
 
 
 def guarded_check(s, timeout_ms):
-    """s.check() with a watchdog: z3 occasionally ignores its `timeout` inside the sequence solver (seen: > 20 minutes on a 2 s budget);
-    a timer thread interrupts the context after twice the budget, which makes check() return `unknown` (or raise, mapped to unknown)."""
-    import threading
-
-    t = threading.Timer(max(1.0, timeout_ms / 1000.0 * 2 + 1), lambda: s.ctx.interrupt())
-    t.daemon = True
-    t.start()
+    """s.check() with z3 exceptions mapped to `unknown`.  (A watchdog thread that interrupted the context after twice the budget was tried and
+    removed: with it the thorough run stalled - a pool worker died within a second of starting, interrupting the shared main context from a
+    timer thread is not safe - and the hang it was meant to cure turned out to be a slow schedule, not z3 ignoring its timeout.)"""
     try:
         return s.check()
     except z3.Z3Exception:
         return z3.unknown
-    finally:
-        t.cancel()
 
 
 def _contains_quant(e):
